@@ -35,7 +35,7 @@ DIM = {"node": "n_node", "face": "n_face", "edge": "n_edge"}
 REMAP_TO = {"node": "nodes", "face": "face centers", "edge": "edge centers"}
 LEAD = ["t", "lev"]
 SYS = {"spherical": 0, "cartesian": 1}
-EPS = 1e-6           # the literal of inverse_distance_weighted.py (model parameter ε)
+EPS = 1e-6           # model parameter ε; replaced at run time by the literal READ from the tree under test (code_eps)
 TIE = 1e-9           # near-tie margin on distances (degrees / chord)
 MESHFILES = "test/meshfiles"
 
@@ -260,6 +260,58 @@ def lean_dims(ctx, dims_codes, dkind):
     return tuple(names[int(x)] for x in a[2:])
 
 
+def code_eps(ctx):
+    """the ε of `weights = 1 / (distances**power + ε)`, read from the SOURCE TEXT of the tree under
+    test (the function is not called), so the driver's model uses the code's literal, not a
+    hand-typed one.  Unknown shape of the expression: noted, the documented 1e-6 is kept."""
+    global EPS
+    import ast
+    import inspect
+
+    import uxarray.remap.inverse_distance_weighted as m
+
+    found = []
+    try:
+        tree = ast.parse(inspect.getsource(m))
+        for node in ast.walk(tree):
+            if (isinstance(node, ast.BinOp) and isinstance(node.op, ast.Div) and isinstance(node.left, ast.Constant)
+                    and node.left.value == 1 and isinstance(node.right, ast.BinOp) and isinstance(node.right.op, ast.Add)
+                    and isinstance(node.right.right, ast.Constant) and isinstance(node.right.right.value, float)
+                    and isinstance(node.right.left, ast.BinOp) and isinstance(node.right.left.op, ast.Pow)):
+                found.append(float(node.right.right.value))
+    except Exception as e:  # pragma: no cover
+        ctx.notes.append(f"eps literal: source not readable ({type(e).__name__})")
+    if len(found) == 1 and found[0] > 0:
+        EPS = found[0]
+        ctx.extra["eps_read_from_source"] = EPS
+    else:
+        ctx.notes.append(f"eps literal: expression `1 / (distances**power + eps)` not found once in the source ({found}); model keeps 1e-6")
+        ctx.extra["eps_read_from_source"] = None
+    return EPS
+
+
+def defaults(ctx):
+    """default arguments of the two accessors as REGENERATED into Gen/Defaults.lean (asked of the driver)"""
+    a = [int(x) for x in ctx.driver.ask("C12.defaults").split()]
+    return dict(power=a[0], k=a[1], idw_dkind=KINDS[a[2]], idw_coord=["spherical", "cartesian"][a[3]],
+                nn_dkind=KINDS[a[4]], nn_coord=["spherical", "cartesian"][a[5]])
+
+
+def tree_answer(env, skind, dkind, coord, k):
+    """what the tree returns for the destination points — the same PUBLIC calls `_remap_grid_parse`
+    makes (`Grid.get_ball_tree(..., reconstruct=True).query(dest_coords, k)`)"""
+    if coord == "spherical":
+        tree = env.src.get_ball_tree(coordinates=REMAP_TO[skind], reconstruct=True)
+        q = np.vstack([getattr(env.dst, f"{dkind}_lon").values, getattr(env.dst, f"{dkind}_lat").values]).T
+    else:
+        tree = env.src.get_ball_tree(coordinates=REMAP_TO[skind], coordinate_system="cartesian", distance_metric="minkowski",
+                                     reconstruct=True)
+        q = np.vstack([getattr(env.dst, f"{dkind}_{c}").values for c in "xyz"]).T
+    ds, idx = tree.query(q, k=k)
+    n = q.shape[0]
+    return np.asarray(idx).reshape(n, k), np.asarray(ds, dtype=float).reshape(n, k)
+
+
 def unit_xyz(lon, lat):
     lo, la = np.radians(lon), np.radians(lat)
     return np.cos(la) * np.cos(lo), np.cos(la) * np.sin(lo), np.sin(la)
@@ -300,6 +352,14 @@ def run_case(ctx, ux, env: Env, case, hist=None, after=None):
     hist: the operations already performed on these two grids (remaps and coordinate changes);
     after: which coordinates were changed before this remap (part of the signature)"""
     d = ctx.driver
+    use_defaults = bool(case.get("defaults"))
+    if use_defaults:  # the call omits every optional argument; the regenerated defaults say what that means
+        df = defaults(ctx)
+        if case["method"] == "nn":
+            case = dict(case, dkind=df["nn_dkind"], coord=df["nn_coord"])
+        else:
+            case = dict(case, dkind=df["idw_dkind"], coord=df["idw_coord"], k=df["k"], power=df["power"])
+        ctx.hit("default-arguments")
     method, skind, dkind, coord = case["method"], case["skind"], case["dkind"], case["coord"]
     lead = tuple(case.get("lead", ()))
     k, power = int(case.get("k", 1)), float(case.get("power", 2))
@@ -365,7 +425,9 @@ def run_case(ctx, ux, env: Env, case, hist=None, after=None):
     nontriv = n_src > 1
     ctx.case(key, nontrivial=nontriv, sample=short if n_src <= 12 and len(lead) <= 1 else None)
     try:
-        if method == "nn":
+        if use_defaults:
+            r = da.remap.nearest_neighbor(env.dst) if method == "nn" else da.remap.inverse_distance_weighted(env.dst)
+        elif method == "nn":
             r = da.remap.nearest_neighbor(env.dst, REMAP_TO[dkind], coord)
         else:
             r = da.remap.inverse_distance_weighted(env.dst, REMAP_TO[dkind], coord, power=power, k=k)
@@ -387,15 +449,19 @@ def run_case(ctx, ux, env: Env, case, hist=None, after=None):
 
     out = np.asarray(r.values, dtype=float)
     obs = dict(type=type(r).__name__, dims=list(r.dims), shape=list(out.shape), values=out.tolist() if out.size <= 400 else "…")
-    # --- structure: dims, shape, grid (Lean `outDims` / `outShape`) ---
-    want_dims = lean_dims(ctx, dims_codes, dkind)
-    want_shape = tuple(int(x) for x in d.ask("C12.shape", n_dst, enc_ints(lead)).split()[1 : 2 + len(lead)])
-    if tuple(r.dims) != want_dims or tuple(out.shape) != want_shape:
-        ctx.fail(sig("dims"), f"result dims {tuple(r.dims)} shape {tuple(out.shape)}; expected {want_dims} {want_shape}",
-                 inp, obs, dict(dims=want_dims, shape=want_shape), ["remap_dims", "remap_shape"])
-        return
-    if type(r).__name__ != "UxDataArray" or r.uxgrid is not env.dst:
-        ctx.fail(sig("grid"), "result is not a UxDataArray attached to the destination grid", inp, obs, None, ["remap_grid"])
+    # --- structure: the Lean wrapper model `wrapResult` judges dims, shape and the attached grid OBJECT ---
+    names = {"n_node": 0, "n_face": 1, "n_edge": 2, "t": 3, "lev": 4}
+    og = 0 if r.uxgrid is env.dst else 1 if r.uxgrid is env.src else 2   # 0 = the destination grid object
+    sg = 0 if env.src is env.dst else 1
+    odims = [names.get(x, 9) for x in r.dims]
+    w = d.ask("C12.wrap", 0, KCODE[dkind], n_dst, sg, enc_ints(dims_codes), enc_ints(data.shape),
+              og, enc_ints(odims), enc_ints(out.shape)).split()
+    if w[0] != "ok" or type(r).__name__ != "UxDataArray":
+        clauses = w[1].split(",") if w[0] == "fail" else ["remap_result_type"]
+        what = "grid" if clauses == ["remap_result_grid_is_destination"] or w[0] == "ok" else "dims"
+        ctx.fail(sig(what), f"result {type(r).__name__} dims {tuple(r.dims)} shape {tuple(out.shape)} attached to "
+                 f"{['the destination grid', 'the SOURCE grid object', 'another grid object'][og]}; the wrapper model gives {' '.join(w[2:])}",
+                 inp, obs, dict(model=" ".join(w[2:])), clauses)
         return
 
     # --- values: the Lean driver judges the implementation's output ---
@@ -406,6 +472,27 @@ def run_case(ctx, ux, env: Env, case, hist=None, after=None):
     amax = float(np.max(np.abs(rows))) if rows.size else 0.0
     head = f"{SYS[coord]}"
     pts = enc_pts(slon, slat) + " " + enc_pts(dlon, dlat)
+    def tree_check():
+        """nothing is assumed about sklearn: the tree's answer is judged (`knnAnswerB`) and the output must
+        be what the code's formula makes of THAT answer (theorems nn_from_tree_meets_spec, idw_from_tree_between,
+        value_from_tree_eq_model)"""
+        if hist is not None or bad_xyz or n_src * n_dst * max(k, 1) > 400000:
+            return  # (in histories an extra tree request would itself refresh the cache under test)
+        idx, ds = tree_answer(env, skind, dkind, coord, k)
+        a = d.ask("C12.tree", head, 1 if method == "nn" else 0, enc_float(power), enc_float(EPS), k, enc_float(TIE), enc_float(1e-9),
+                  enc_float(1e-10 * (1 + amax)), pts, " ".join([str(n_dst)] + [enc_ints(r_) for r_ in idx]),
+                  enc_frows(ds), enc_frows(rows), enc_frows(orows))
+        assert a.startswith("ok"), a
+        t = common.Tok(a.split()[1:])
+        fa, fv, tt, df_ = t.ints(), t.ints(), t.ints(), t.float()
+        ctx.hit("tree-answers-judged", n_dst - len(tt))
+        if fa:
+            ctx.fail(sig("tree-answer-not-k-nearest"),
+                     f"BallTree.query(k={k}) for destination {dkind} {fa[0]} does not meet the k-nearest specification (Lean knnAnswerB); "
+                     f"{len(fa)} of {n_dst}", inp, dict(idx=idx.tolist()), None, ["KnnAnswer"])
+        elif fv:
+            ctx.mismatch("C12/value-vs-formula-of-tree-answer", inp, obs, dict(failing=fv, maxdiff=df_))
+
     if method == "nn":
         a = d.ask("C12.nn", head, enc_float(TIE), pts, enc_frows(rows), enc_frows(orows))
         assert a.startswith("ok"), a
@@ -424,6 +511,8 @@ def run_case(ctx, ux, env: Env, case, hist=None, after=None):
             ctx.hit("identity-on-self")
             if not np.array_equal(out, data):
                 ctx.fail(sig("identity"), "remapping onto the source's own elements is not the identity", inp, obs, None, ["nn_identity_on_self"])
+                return
+        tree_check()
         return
     tolv = 1e-9 * (1 + amax)
     if method == "idw":
@@ -447,6 +536,8 @@ def run_case(ctx, ux, env: Env, case, hist=None, after=None):
                          hist=hist, after=after)
             if len(ctx.failures) == before:
                 ctx.mismatch("C12/idw-value-vs-model", inp, obs, dict(maxdiff=diff))
+        else:
+            tree_check()
         return
     # one-hot data: the output is the implementation's weight matrix
     a = d.ask("C12.weights", head, enc_float(power), enc_float(EPS), k, enc_float(TIE), enc_float(1e-9), pts, enc_frows(orows))
@@ -465,6 +556,8 @@ def run_case(ctx, ux, env: Env, case, hist=None, after=None):
                  f"non-increasing with distance", inp, obs, dict(failing=fw), ["idw_weights_nonneg", "idw_weights_sum_one", "idw_antitone"])
     elif not (diff <= 1e-6):
         ctx.mismatch("C12/idw-weights-vs-model", inp, obs, dict(maxdiff=diff))
+    else:
+        tree_check()
 
 
 # ----------------------------------------------------------------------------------------------
@@ -526,6 +619,10 @@ def cases_for(ctx, env: Env, budget):
                                 data=rand_data(rng, (), n_src, const=rng.choice([3.25, -7.0, 1e6]))))
             if n_src <= 64 and n_src * n_src * n_dst <= 400000:
                 out.append(dict(method="weights", skind=skind, dkind=dkind, coord=coord, k=rng.choice(ks), power=rng.choice([2, 1, 3, 0.5])))
+        # calls that omit every optional argument (remap_to, coord_type, power, k)
+        if rng.random() < 0.2:
+            out.append(dict(method="nn", skind=skind, dkind=dkind, coord=coord, lead=[], data=rand_data(rng, (), n_src), defaults=True))
+            out.append(dict(method="idw", skind=skind, dkind=dkind, coord=coord, lead=[], data=rand_data(rng, (), n_src), defaults=True))
         # the k guard: one inadmissible and one boundary request now and then
         if rng.random() < 0.25 and n_src >= 2:
             out.append(dict(method="idw", skind=skind, dkind=dkind, coord=coord, lead=[], k=rng.choice([1, n_src + 1]), power=2,
@@ -651,12 +748,19 @@ def run(ctx):
                 "UxDataArray.remap accessor; distinct = distinct (grids, kinds, coord, shape, k, power, data); near-ties (gap < 1e-9) are "
                 "counted and discarded")
     ctx.assumptions = [
-        "sklearn's BallTree is a parameter of the model, assumed to return the brute-force k nearest (validated per case by the Lean oracle)",
+        "nothing is assumed about sklearn's BallTree: its answer for every destination point is obtained through the same public call the "
+        "remap makes and judged by the Lean predicate knnAnswerB; the output must equal the code's formula applied to THAT answer (1e-10); "
+        "theorems nn_from_tree_meets_spec / idw_from_tree_between / value_from_tree_eq_model derive the rest (histories excepted: there an "
+        "extra tree request would refresh the cache under test, so only the outputs are judged)",
+        "the UxDataset-level paths (_nearest_neighbor_uxds, _inverse_distance_weighted_remap_uxds, UxDataset.remap) are NOT exercisable here: "
+        "UxDataset construction raises under the installed xarray; they loop over the UxDataArray path judged here",
+        "default arguments (remap_to, coord_type, power, k) come from the regenerated Gen/Defaults.lean; the literal ε is read from the source text each run",
         "the haversine formula is taken to be the great-circle distance (not proved); chord-nearest = great-circle-nearest on unit vectors is proved (chord_le_iff_arc_le)",
         "the oracle uses the lon/lat the grids report; for 'cartesian' the unit vectors of those lon/lat",
         "IEEE rounding: convexity is judged with tolerance 1e-9·(1+max|data|), weights with 1e-9, model agreement with 1e-6",
-        "the literal 1e-6 of the implementation is the model parameter ε (theorems hold for every ε > 0)",
+        "theorems hold for every ε > 0",
     ]
+    code_eps(ctx)
     # minimised past failures / regression witnesses first
     import json
 
@@ -703,4 +807,5 @@ def run_input(ctx, ux, inp):
 def replay(ctx, rp):
     import uxarray as ux
 
+    code_eps(ctx)
     run_input(ctx, ux, rp["input"])
